@@ -180,6 +180,7 @@ const ALL: [St; 3] = [St::A, St::B, St::C];
 #[kani::stub(std::time::Duration::as_secs_f32, crate::verif_dur::as_secs_f32_model)]
 #[kani::stub(std::time::Duration::from_secs_f32, crate::verif_dur::from_secs_f32_model)]
 pub(crate) fn new_establishes_inv() {
+    crate::verif_dur::dur_reset();
     let m = any_map();
     let s0 = any_state();
     let v0 = any_vals();
@@ -207,6 +208,7 @@ pub(crate) fn new_establishes_inv() {
 #[kani::stub(std::time::Duration::as_secs_f32, crate::verif_dur::as_secs_f32_model)]
 #[kani::stub(std::time::Duration::from_secs_f32, crate::verif_dur::from_secs_f32_model)]
 pub(crate) fn set_state_contract() {
+    crate::verif_dur::dur_reset();
     let mut a = any_animator_satisfying_inv();
     let target = any_state();
     let old_cur = a.current_state;
@@ -278,6 +280,7 @@ pub(crate) fn set_state_contract() {
 #[kani::stub(std::time::Duration::as_secs_f32, crate::verif_dur::as_secs_f32_model)]
 #[kani::stub(std::time::Duration::from_secs_f32, crate::verif_dur::from_secs_f32_model)]
 pub(crate) fn advance_contract() {
+    crate::verif_dur::dur_reset();
     let mut a = any_animator_satisfying_inv();
     let dt: f32 = kani::any();
     kani::assume(dt >= 0.0 && dt <= 1.0e9);
@@ -312,6 +315,7 @@ pub(crate) fn advance_contract() {
 #[kani::stub(std::time::Duration::as_secs_f32, crate::verif_dur::as_secs_f32_model)]
 #[kani::stub(std::time::Duration::from_secs_f32, crate::verif_dur::from_secs_f32_model)]
 pub(crate) fn advance_zero_is_identity() {
+    crate::verif_dur::dur_reset();
     let mut a = any_animator_satisfying_inv();
     let old_vals = a.current_values;
     let old_time = a.state_duration;
@@ -329,6 +333,7 @@ pub(crate) fn advance_zero_is_identity() {
 #[kani::stub(std::time::Duration::as_secs_f32, crate::verif_dur::as_secs_f32_model)]
 #[kani::stub(std::time::Duration::from_secs_f32, crate::verif_dur::from_secs_f32_model)]
 pub(crate) fn advance_split_equals_advance_sum() {
+    crate::verif_dur::dur_reset();
     let mut x = any_animator_satisfying_inv();
     let na: u32 = kani::any();
     let nb: u32 = kani::any();
@@ -363,6 +368,7 @@ pub(crate) fn advance_split_equals_advance_sum() {
 #[kani::stub(std::time::Duration::as_secs_f32, crate::verif_dur::as_secs_f32_model)]
 #[kani::stub(std::time::Duration::from_secs_f32, crate::verif_dur::from_secs_f32_model)]
 pub(crate) fn is_ended_contract() {
+    crate::verif_dur::dur_reset();
     let a = any_animator_satisfying_inv();
     let r = a.is_ended();
     match comp(&a.timelines, &a.current_state) {
@@ -383,6 +389,7 @@ pub(crate) fn is_ended_contract() {
 #[kani::stub(std::time::Duration::as_secs_f32, crate::verif_dur::as_secs_f32_model)]
 #[kani::stub(std::time::Duration::from_secs_f32, crate::verif_dur::from_secs_f32_model)]
 pub(crate) fn is_ended_is_stable_under_advance() {
+    crate::verif_dur::dur_reset();
     let mut a = any_animator_satisfying_inv();
     let dt: f32 = kani::any();
     kani::assume(dt >= 0.0 && dt <= 1.0e9);
@@ -437,6 +444,7 @@ fn any_es() -> Es {
 #[kani::stub(std::time::Duration::as_secs_f32, crate::verif_dur::as_secs_f32_model)]
 #[kani::stub(std::time::Duration::from_secs_f32, crate::verif_dur::from_secs_f32_model)]
 pub(crate) fn builder_contract() {
+    crate::verif_dur::dur_reset();
     let s0 = any_es();
     let v0 = any_vals();
     let on_a: bool = kani::any();
@@ -489,6 +497,7 @@ pub(crate) fn builder_contract() {
 #[kani::stub(std::time::Duration::as_secs_f32, crate::verif_dur::as_secs_f32_model)]
 #[kani::stub(std::time::Duration::from_secs_f32, crate::verif_dur::from_secs_f32_model)]
 pub(crate) fn cover_inv_states() {
+    crate::verif_dur::dur_reset();
     let a = any_animator_satisfying_inv();
     kani::cover!(live_pause(&a).is_some(), "frozen with a remembered animation");
     kani::cover!(comp(&a.timelines, &a.current_state).is_some() && a.state_duration > Duration::ZERO, "animating, time elapsed");
@@ -501,6 +510,7 @@ pub(crate) fn cover_inv_states() {
 #[kani::stub(std::time::Duration::as_secs_f32, crate::verif_dur::as_secs_f32_model)]
 #[kani::stub(std::time::Duration::from_secs_f32, crate::verif_dur::from_secs_f32_model)]
 pub(crate) fn canary_must_fail() {
+    crate::verif_dur::dur_reset();
     let mut a = any_animator_satisfying_inv();
     let target = any_state();
     a.set_state(&target);
